@@ -20,6 +20,7 @@ import (
 	"sync"
 	"sync/atomic"
 	"testing"
+	"time"
 
 	"k8s.io/klog/v2"
 
@@ -28,20 +29,20 @@ import (
 )
 
 type c20Event struct {
-	Ev      string      `json:"ev"`
-	Hist    int         `json:"hist"`
-	ID      uint32      `json:"id,omitempty"`
-	Kind    string      `json:"kind,omitempty"`
+	Ev      string        `json:"ev"`
+	Hist    int           `json:"hist"`
+	ID      uint32        `json:"id,omitempty"`
+	Kind    string        `json:"kind,omitempty"`
 	Records [][][3]string `json:"records,omitempty"` // per record: (name, rendering, kind) triples
-	TFields [][3]string `json:"tfields,omitempty"` // template: name, len, enterprise
-	Method  string      `json:"method,omitempty"`
-	URL     string      `json:"url,omitempty"`
-	Code    int         `json:"code,omitempty"`
-	Body    string      `json:"body,omitempty"`
-	CType   string      `json:"ctype,omitempty"`
-	Started int64       `json:"started,omitempty"`   // concurrent phase: arrivals started when the request returned
-	Done    int64       `json:"done,omitempty"`      // concurrent phase: arrivals completed when the request was issued
-	Conc    bool        `json:"conc,omitempty"`
+	TFields [][3]string   `json:"tfields,omitempty"` // template: name, len, enterprise
+	Method  string        `json:"method,omitempty"`
+	URL     string        `json:"url,omitempty"`
+	Code    int           `json:"code,omitempty"`
+	Body    string        `json:"body,omitempty"`
+	CType   string        `json:"ctype,omitempty"`
+	Started int64         `json:"started,omitempty"` // concurrent phase: arrivals started when the request returned
+	Done    int64         `json:"done,omitempty"`    // concurrent phase: arrivals completed when the request was issued
+	Conc    bool          `json:"conc,omitempty"`
 }
 
 type c20Log struct {
@@ -253,7 +254,7 @@ func TestVerifC20Driver(t *testing.T) {
 		arrivals := 0
 		for i := 0; i < nops; i++ {
 			x := r.IntN(100)
-			if long && i%700 != 0 {
+			if long && i%2500 != 0 {
 				x = 50 // mostly arrivals, so that the cap is exceeded several times
 				if i%6000 == 5999 {
 					x = 0 // a rare reset
@@ -272,7 +273,7 @@ func TestVerifC20Driver(t *testing.T) {
 				arrivals++
 			case x < 92:
 				counts := []string{"", "0", "1", "2", "5", "17", strconv.Itoa(arrivals), "4095", "4096", "4097", "100000"}
-				if long && i%700 != 0 {
+				if long && i%2500 != 0 {
 					counts = []string{"1", "2", "5"}
 				}
 				cs := counts[r.IntN(len(counts))]
@@ -311,8 +312,17 @@ func TestVerifC20Driver(t *testing.T) {
 // c20Concurrent: one writer, four readers and a resetter run concurrently (race detector).
 func c20Concurrent(lg *c20Log, r *rand.Rand, h int, nextID *uint32) {
 	var started, done atomic.Int64
+	// fill the store to its cap first: trimming (which touches the oldest entry) then happens on every
+	// arrival of the concurrent phase, while full-window queries are being answered
+	for i := 0; i < maxFlowRecords; i++ {
+		*nextID++
+		msg, ev := c20Message(r, *nextID, false)
+		ev.Hist, ev.Conc = h, true
+		addIPFIXMessage(msg)
+		lg.write(ev)
+	}
 	base := *nextID
-	total := 1500 + r.IntN(1500)
+	total := 600 + r.IntN(600)
 	*nextID += uint32(total)
 	seeds := []uint64{r.Uint64(), r.Uint64(), r.Uint64(), r.Uint64(), r.Uint64(), r.Uint64()}
 	var wg sync.WaitGroup
@@ -336,6 +346,7 @@ func c20Concurrent(lg *c20Log, r *rand.Rand, h int, nextID *uint32) {
 		go func(g int) {
 			defer wg.Done()
 			rr := rand.New(rand.NewPCG(seeds[1+g], 2))
+			full := 0
 			for {
 				select {
 				case <-stop:
@@ -343,6 +354,16 @@ func c20Concurrent(lg *c20Log, r *rand.Rand, h int, nextID *uint32) {
 				default:
 				}
 				url := fmt.Sprintf("/records?count=%d&format=%s", 1+rr.IntN(40), []string{"json", "text"}[rr.IntN(2)])
+				if g >= 2 { // two of the readers ask for the whole window (it reaches the oldest entry)
+					if full >= 3 {
+						return
+					}
+					full++
+					url = []string{"/records?format=text", "/records?count=4096&format=json", "/records?count=5000&format=text", "/records"}[rr.IntN(4)]
+					time.Sleep(3 * time.Millisecond)
+				} else {
+					time.Sleep(300 * time.Microsecond)
+				}
 				d := done.Load()
 				code, body, ct := c20Request("GET", url)
 				s := started.Load()
@@ -351,21 +372,18 @@ func c20Concurrent(lg *c20Log, r *rand.Rand, h int, nextID *uint32) {
 		}(g)
 	}
 	wg.Add(1)
-	go func() {
+	go func() { // a rare reset: the store is at its cap for most of the phase
 		defer wg.Done()
 		rr := rand.New(rand.NewPCG(seeds[5], 3))
-		for {
+		for n := 0; n < 2; n++ {
 			select {
 			case <-stop:
 				return
-			default:
+			case <-time.After(time.Duration(40+rr.IntN(200)) * time.Millisecond):
 			}
-			if rr.IntN(50) == 0 {
+			if rr.IntN(2) == 0 {
 				code, body, _ := c20Request("POST", "/reset")
 				lg.write(c20Event{Ev: "req", Hist: h, Method: "POST", URL: "/reset", Code: code, Body: body, Conc: true})
-			}
-			for i := 0; i < 200; i++ {
-				_ = i
 			}
 		}
 	}()
